@@ -26,7 +26,8 @@ def generate(tier, seed):
             for s in SUBS + ["admin"]:
                 for o in OBJS:
                     qs.append(Q_e([s, dm, o, "read"]))
-                qs += ["?rf:%s:%s" % (s, dm), "?uf:%s:%s" % (s, dm), "?ir:%s:%s" % (s, dm), "?ip:%s:%s" % (s, dm), "?pf:%s:%s" % (s, dm)]
+                e = enc(dm)
+                qs += ["?rf:%s:%s" % (s, e), "?uf:%s:%s" % (s, e), "?ir:%s:%s" % (s, e), "?ip:%s:%s" % (s, e), "?pf:%s:%s" % (s, e)]
             return qs
 
         def confined_ops(dm):
@@ -38,51 +39,56 @@ def generate(tier, seed):
                 for r in ROLES:
                     ops.append(A("g", "g", [s, r, dm]))
                     ops.append(R("g", "g", [s, r, dm]))
-                ops.append("ar:%s:admin:%s" % (s, dm))
-                ops.append("dr:%s:admin:%s" % (s, dm))
-                ops.append("drs:%s:%s" % (s, dm))
+                ops.append("ar:%s:admin:%s" % (s, enc(dm)))
+                ops.append("dr:%s:admin:%s" % (s, enc(dm)))
+                if dm != "":
+                    ops.append("drs:%s:%s" % (s, enc(dm)))
             ops.append(AM("g", "g", [["alice", "admin", dm], ["bob", "admin", dm]]))
             ops.append(RM("g", "g", [["alice", "admin", dm], ["bob", "admin", dm]]))
-            ops.append(RF("p", "p", 1, [dm]))
-            ops.append(RF("p", "p", 0, ["alice", dm]))
-            ops.append(RF("g", "g", 2, [dm]))
-            ops.append(RF("g", "g", 0, ["alice", "", dm]))
+            if dm != "":       # an empty filter value is a wildcard: such a removal is not confined to the domain named ""
+                ops.append(RF("p", "p", 1, [dm]))
+                ops.append(RF("p", "p", 0, ["alice", dm]))
+                ops.append(RF("g", "g", 2, [dm]))
+                ops.append(RF("g", "g", 0, ["alice", "", dm]))
             ops.append(AM("p", "p", [prule("alice", dm, "data2"), prule("bob", dm, "data2")]))
             return ops
 
-        obs = "d1"
-        others = ["d2", "d3"]
-        n_states = 12 if tier == "quick" else 120
-        for _ in range(n_states):
-            lines = []
-            for dm in DOMS:
-                for s in rnd.sample(SUBS + ["admin"], rnd.randint(0, 2)):
-                    lines.append(["p", "p"] + prule(s, dm, rnd.choice(OBJS)))
-                for _ in range(rnd.randint(0, 2)):
-                    lines.append(["g", "g", rnd.choice(SUBS + ["admin"]), rnd.choice(ROLES), dm])
-            uniq = []
-            for l in lines:
-                if l not in uniq:
-                    uniq.append(l)
-            ops = [o for dm in others for o in confined_ops(dm)]
-            for o in ops:
-                steps = block(obs) + [o] + block(obs)
-                cases.append(case("eng", sp, adapter_M(uniq), "-", steps))
-                dist["exhaustive"] += 1
-            # the observed domain holds a grouping rule that was stored while automatic link building was off (stored, not
-            # linked): a call confined to another domain must not build it (nor anything else in the observed domain)
-            pre = ["EB:0", A("g", "g", [rnd.choice(SUBS), "admin", obs]), A("p", "p", prule("admin", obs, "data1")), "EB:1"]
-            for o in rnd.sample(ops, 12 if tier == "quick" else 40) + [RF("g", "g", 2, ["d2"]), RF("g", "g", 0, ["alice", "", "d3"]), "drs:alice:d2"]:
-                steps = pre + block(obs) + [o] + block(obs)
-                cases.append(case("eng", sp, adapter_M(uniq), "-", steps))
-                dist["unbuilt_link"] = dist.get("unbuilt_link", 0) + 1
-            for _ in range(3):
-                n = rnd.choice([5, 20, 60])
-                steps = block(obs)
-                for _ in range(n):
-                    steps += [rnd.choice(ops)] + block(obs)
-                cases.append(case("eng", sp, adapter_M(uniq), "-", steps))
-                dist["random"] += 1
+        # the second and third configuration use the two domain names a role manager could confuse: the EMPTY name and the
+        # name of the default domain ("DEFAULT" is what a None domain is filed under)
+        n_full = 12 if tier == "quick" else 120
+        for doms, obs, n_states in ((DOMS, "d1", n_full), (["", "DEFAULT", "d3"], "", max(2, n_full // 4)),
+                                    (["DEFAULT", "", "d3"], "DEFAULT", max(2, n_full // 4))):
+          others = doms[1:]
+          for _ in range(n_states):
+              lines = []
+              for dm in doms:
+                  for s in rnd.sample(SUBS + ["admin"], rnd.randint(0, 2)):
+                      lines.append(["p", "p"] + prule(s, dm, rnd.choice(OBJS)))
+                  for _ in range(rnd.randint(0, 2)):
+                      lines.append(["g", "g", rnd.choice(SUBS + ["admin"]), rnd.choice(ROLES), dm])
+              uniq = []
+              for l in lines:
+                  if l not in uniq:
+                      uniq.append(l)
+              ops = [o for dm in others for o in confined_ops(dm)]
+              for o in ops:
+                  steps = block(obs) + [o] + block(obs)
+                  cases.append(case("eng", sp, adapter_M(uniq), "-", steps))
+                  dist["exhaustive"] += 1
+              # the observed domain holds a grouping rule that was stored while automatic link building was off (stored, not
+              # linked): a call confined to another domain must not build it (nor anything else in the observed domain)
+              pre = ["EB:0", A("g", "g", [rnd.choice(SUBS), "admin", obs]), A("p", "p", prule("admin", obs, "data1")), "EB:1"]
+              for o in rnd.sample(ops, 12 if tier == "quick" else 40) + [RF("g", "g", 2, [others[1]]), RF("g", "g", 0, ["alice", "", others[1]]), "drs:alice:%s" % others[1]]:
+                  steps = pre + block(obs) + [o] + block(obs)
+                  cases.append(case("eng", sp, adapter_M(uniq), "-", steps))
+                  dist["unbuilt_link"] = dist.get("unbuilt_link", 0) + 1
+              for _ in range(3):
+                  n = rnd.choice([5, 20, 60])
+                  steps = block(obs)
+                  for _ in range(n):
+                      steps += [rnd.choice(ops)] + block(obs)
+                  cases.append(case("eng", sp, adapter_M(uniq), "-", steps))
+                  dist["random"] += 1
     return {
         "cases": cases,
         "exhaustive": False,
